@@ -1,7 +1,7 @@
 (** C05 — property theorems only.  Each is closed by [exact] of a lemma proved in Proofs*.v and followed by
     [Print Assumptions].  [check_doc] is the model of check_type_system_document (C05/Model.v) that the
     correspondence run ties to /repo; [spec_valid], [rule_ok] are the specification side (C05/Spec.v). *)
-From V Require Import Base.Util Gql.Ast C05.Model C05.Spec C05.Witness
+From V Require Import Base.Util Gql.Ast C05.Model C05.Spec C05.SpecExamples C05.Witness
      C05.Proofs C05.Proofs2 C05.Proofs3 C05.Proofs4 C05.Proofs5 C05.Proofs6 C05.Proofs7 C05.Proofs8
      C05.Proofs9 C05.Proofs10 C05.Proofs11.
 
